@@ -109,7 +109,7 @@ func c12Probe(root stackage.Stack, maxIdx, maxPath int) (out []string, panicked 
 	panicked = noPanic(func() {
 		out = append(out, "String="+root.String())
 		u, err := root.Unmarshal()
-		out = append(out, fmt.Sprintf("Unmarshal=%v err=%v", u, err))
+		out = append(out, fmt.Sprintf("Unmarshal=%s err=%v", c12Slice(u), err))
 		out = append(out, fmt.Sprintf("IsNesting=%v Len=%d", root.IsNesting(), root.Len()))
 		var walk func(v any, path string)
 		walk = func(v any, path string) {
@@ -134,6 +134,22 @@ func c12Probe(root stackage.Stack, maxIdx, maxPath int) (out []string, panicked 
 		}
 	})
 	return
+}
+
+// c12Slice renders an Unmarshal result; values handed through as-is (a Condition used as an
+// expression) are shown by what they convert to, not by a String method of their own.
+func c12Slice(v any) string {
+	if sl, ok := v.([]any); ok {
+		p := make([]string, len(sl))
+		for i, e := range sl {
+			p[i] = c12Slice(e)
+		}
+		return "[" + strings.Join(p, " ") + "]"
+	}
+	if op, ok := v.(stackage.Operator); ok {
+		return op.String()
+	}
+	return c12Value(v)
 }
 
 func c12Value(v any) string {
@@ -346,6 +362,7 @@ func c12Trees(c *Ctx) []anode {
 		S("BASIC", S("LIST", lf("a")), C("k", S("OR", lf("q"), nl))),
 		S("AND", nl, S("LIST", nl, lf("a"), nl, nl, lf("b")), nl, C("k", S("LIST", lf("p"), nl, lf("q")))),
 		S("OR", C("k", lf("v")), C("k", lf("v")), S("AND", lf(2.5), lf(true))),
+		S("AND", C("outer", C("inner", lf("v"))), lf("z")),
 	}
 	if !c.Quick() {
 		trees = append(trees,
